@@ -335,3 +335,71 @@ Section Consequences.
       eapply (spec_members drop s out (x :: l) x); [split; eassumption|exact Hb|now left].
   Qed.
 End Consequences.
+
+(* ------------------------------------------------------------------------------------ *)
+(* len() does not depend on the order of the epoch: caching it is sound when every epoch *)
+(* presents the same indices                                                             *)
+(* ------------------------------------------------------------------------------------ *)
+
+From Coq Require Import Sorting.Permutation.
+
+Lemma list_sum_perm : forall l l', Permutation l l' -> list_sum l = list_sum l'.
+Proof. induction 1; rewrite ?list_sum_cons; try lia; reflexivity. Qed.
+
+Lemma counter_add_pos : forall k c, (forall k' n, In (k', n) c -> 0 < n) ->
+  forall k' n, In (k', n) (counter_add k c) -> 0 < n.
+Proof.
+  induction c as [|[k0 n0] t IH]; intros Hpos k' n Hin; cbn [counter_add] in Hin.
+  - destruct Hin as [Heq|[]]. inversion Heq. lia.
+  - destruct (Nat.eqb k0 k).
+    + destruct Hin as [Heq|Hin]; [inversion Heq; lia|]. apply (Hpos k' n). now right.
+    + destruct Hin as [Heq|Hin]; [inversion Heq; subst; apply (Hpos k' n); now left|].
+      apply (IH (fun k1 n1 H => Hpos k1 n1 (or_intror H)) _ _ Hin).
+Qed.
+
+Lemma counter_pos : forall l k n, In (k, n) (counter l) -> 0 < n.
+Proof.
+  intros l. unfold counter.
+  assert (H : forall l c, (forall k n, In (k, n) c -> 0 < n) ->
+              forall k n, In (k, n) (fold_left (fun c k => counter_add k c) l c) -> 0 < n).
+  { induction l0 as [|x t IH]; intros c Hc k n Hin; cbn [fold_left] in Hin; [now apply (Hc k n)|].
+    apply (IH (counter_add x c)) in Hin; [exact Hin|]. now apply counter_add_pos. }
+  apply H. intros k n [].
+Qed.
+
+Lemma counter_keys : forall l k, In k (map fst (counter l)) <-> In k l.
+Proof.
+  intros l k. destruct (cinv_counter l) as (_ & Hcnt & Hkeys). split; [|apply Hkeys].
+  intros Hin. apply in_map_iff in Hin. destruct Hin as ([k' n] & <- & Hin). cbn [fst].
+  pose proof (counter_pos _ _ _ Hin) as Hpos. rewrite (Hcnt _ _ Hin) in Hpos.
+  now apply (count_occ_In Nat.eq_dec).
+Qed.
+
+Section LenInvariant.
+  Variables bk sz : nat -> nat.
+
+  Lemma sampler_len_sum : forall drop s,
+    sampler_len bk sz drop s
+    = list_sum (map (fun k => expected_batches drop (count_occ Nat.eq_dec (map bk s) k) (sz k))
+                    (map fst (counter (map bk s)))).
+  Proof.
+    intros drop s. unfold sampler_len.
+    destruct (cinv_counter (map bk s)) as (_ & Hcnt & _).
+    rewrite (fold_left_sum (fun b n => if drop then n / sz b else (n + sz b - 1) / sz b)). cbn [Nat.add].
+    rewrite map_map. f_equal. apply map_ext_in. intros [k n] Hin. cbn [fst snd].
+    rewrite <- (Hcnt _ _ Hin). reflexivity.
+  Qed.
+
+  Theorem sampler_len_perm : forall drop s s', Permutation s s' ->
+    sampler_len bk sz drop s = sampler_len bk sz drop s'.
+  Proof.
+    intros drop s s' Hp. rewrite !sampler_len_sum.
+    assert (Hm : Permutation (map bk s) (map bk s')) by now apply Permutation_map.
+    assert (Hk : Permutation (map fst (counter (map bk s))) (map fst (counter (map bk s')))).
+    { apply NoDup_Permutation; [apply cinv_counter|apply cinv_counter|].
+      intros k. rewrite !counter_keys. split; apply Permutation_in; [exact Hm|now symmetry]. }
+    rewrite (list_sum_perm _ _ (Permutation_map _ Hk)).
+    f_equal. apply map_ext. intros k.
+    now rewrite (proj1 (Permutation_count_occ Nat.eq_dec _ _) Hm k).
+  Qed.
+End LenInvariant.
